@@ -49,6 +49,17 @@ partial def digestRange (cfg : Cfg) (d : Nat) (k k1 step : Int) (h : UInt64) (cn
     let h := mixI (mixI (mix (mix (mix (mix h o.vbits) o.decimals) o.pbits) o.gbits) o.number) o.scale
     digestRange cfg d (k + step) k1 step h (cnt + 1)
 
+/-- the same digest without the run-time assertion of `IsRnd` on every rounding (the assertion is a theorem,
+    `c19_rnd_sound`; it is asserted at run time on the whole quick-tier grid and on every single value, the largest
+    sweeps of the thorough tier do without) -/
+partial def digestRangeFast (cfg : Cfg) (d : Nat) (k k1 step : Int) (h : UInt64) (cnt : Nat) : Except String (UInt64 × Nat) :=
+  if k > k1 then .ok (h, cnt) else
+  let o := observe cfg (parseDec k d)
+  if !o.inRange then .error s!"range {k}"
+  else
+    let h := mixI (mixI (mix (mix (mix (mix h o.vbits) o.decimals) o.pbits) o.gbits) o.number) o.scale
+    digestRangeFast cfg d (k + step) k1 step h (cnt + 1)
+
 def periodStr (p : Dur.Period) : String := s!"{p.years} {p.months} {p.days} {p.hours} {p.minutes} {p.tenths}"
 
 partial def digestDur (z z1 step : Int) (h : UInt64) (cnt : Nat) : UInt64 × Nat :=
@@ -145,6 +156,13 @@ def answer (cfg : Cfg) (ws : List String) : Cfg × String :=
     | some d, some k0, some k1, some step =>
       if step ≤ 0 then (cfg, "bad-op") else
       match digestRange cfg d k0 k1 step (UInt64.ofNat 1469598103934665603) 0 with
+      | .ok (h, n) => (cfg, s!"digest {h.toNat} {n}")
+      | .error e => (cfg, e)
+    | _, _, _, _ => (cfg, "bad-op")
+  | ["srangef", d, k0, k1, step] => match d.toNat?, k0.toInt?, k1.toInt?, step.toInt? with
+    | some d, some k0, some k1, some step =>
+      if step ≤ 0 then (cfg, "bad-op") else
+      match digestRangeFast cfg d k0 k1 step (UInt64.ofNat 1469598103934665603) 0 with
       | .ok (h, n) => (cfg, s!"digest {h.toNat} {n}")
       | .error e => (cfg, e)
     | _, _, _, _ => (cfg, "bad-op")
